@@ -10,11 +10,12 @@
 // @h c15_spec_rename_hyphen tier=both bounded=one-literal-specifier
 // @h c15_output_path_stdout tier=both bounded=one-literal-path
 // @h c15_output_path_given tier=both bounded=one-literal-path
-// @h c15_output_path_default tier=off bounded=one-literal-path
-// @h c15_output_path_default_dir tier=off bounded=one-literal-path
+// @h c15_output_path_default tier=native bounded=one-literal-path
+// @h c15_output_path_default_dir tier=native bounded=one-literal-path
 // @h c15_spec_versions tier=both bounded=enumerated-literal-specifiers
 // @h c15_use_builder tier=both
 // @canary canary_c15_cli
+// @native-canary canary_c15_cli
 //
 // C15 -- the CLI argument layer of cargo-typify, on text extracted mechanically from
 // cargo-typify/src/lib.rs (lib/c15_prepare.py; drop list E1-E3 there).
@@ -27,9 +28,10 @@
 //       no rename; "<rename>=<name>@*" parses with that rename
 //   P2  "<name>@!" => Never; "<name>@<semver>" => that Version; a specifier without `@`,
 //       or with an unparsable version, is rejected
-//   P3  output_path: `-o -` => None (stdout); `-o p` => p. (The default -- input with
-//       extension rs -- is NOT decided: PathBuf::set_extension does not terminate in CBMC
-//       within 20 minutes even on a literal path; harnesses kept with tier=off.)
+//   P3  output_path: `-o -` => None (stdout); `-o p` => p. The default -- input with
+//       extension rs -- is not proved (PathBuf::set_extension does not terminate in CBMC
+//       within 20 minutes even on a literal path): the two literal instances are executed
+//       natively against the real code instead (`tier=native`, bounded stand-in).
 //   P4  use_builder == !no_builder
 //
 // Everything is a literal here (a concrete instance is the symbolic execution of one path):
